@@ -89,7 +89,7 @@ def main():
                      "kind_free_text": "hand-written deterministic simulator: seeded world / schedule / fault generators, explicit JSON traces, reference models, ddmin shrinking, fresh-interpreter replay"}],
         "checks": checks,
         "not_applicable": na,
-        "notes": "Exit 0 = held (KNOWN-FINDING lines allowed), 1 = VIOLATION line printed, 2 = harness error. VERIF_SEED selects the seed, VERIF_REPO the tree (default /repo). Every check: seeded worlds/schedules/faults, explicit JSON traces, at most 64 runs per freshly forked child (cold and warm process state), schedulable observation (incl. steps without any rendering), no new chunk is started once a violation has been found, ddmin + world reduction, replay in a fresh interpreter (with the process history when the violation depends on it), hash-seed sweep. Genuine defects found (repaired by 15 'fix:' commits in /repo; 2 open with witness cases): KNOWN_FINDINGS.json and DESIGN.md 4.1. Self-tests (selftest.py): determinism, 26 hand-written mutants, 265 changes seeded by independent sub-agents in 9 rounds (all caught by the quick tier), 91 behaviour-preserving re-implementations (all silent), stub fidelity; see DESIGN.md sections 6 and 9.",
+        "notes": "Exit 0 = held (KNOWN-FINDING lines allowed), 1 = VIOLATION line printed, 2 = harness error. VERIF_SEED selects the seed, VERIF_REPO the tree (default /repo). Every check: seeded worlds/schedules/faults, explicit JSON traces, at most 64 runs per freshly forked child (cold and warm process state), schedulable observation (incl. steps without any rendering), no new chunk is started once a violation has been found, ddmin + world reduction, replay in a fresh interpreter (with the process history when the violation depends on it), hash-seed sweep. Genuine defects found (repaired by 15 'fix:' commits in /repo; 2 open with witness cases): KNOWN_FINDINGS.json and DESIGN.md 4.1. Self-tests (selftest.py): determinism, 26 hand-written mutants, 273 changes seeded by independent sub-agents in 10 rounds (269 caught by the quick tier; the 4 misses of round 10 - two need a short read of the caller's file object, two need C11 input shapes not generated yet - are listed in DESIGN 9.2), 91 behaviour-preserving re-implementations (all silent), stub fidelity; see DESIGN.md sections 6 and 9.",
     }
     with open(os.path.join(HERE, "MANIFEST.json"), "w") as f:
         json.dump(man, f, indent=1)
